@@ -8,12 +8,11 @@ import Chokan.Model.Server
 import Chokan.Lemmas.Kkc
 import Chokan.Gen.Server
 import Chokan.Lemmas.KkcCounts
+import Chokan.Lemmas.Counts
 import Chokan.Props.C02
 
 namespace Chokan.Props.C06
 open Chokan.Server Chokan.Kkc Chokan.Dic
-
-def countOf (f : List FreqEntry) (ctx : Ctx) (w : Str) : Nat := freqOf (toKkcFreq f) ctx w
 
 /-- An unknown (or already consumed) session changes no count, no user word and queues nothing. -/
 theorem C06_unknown_session (c : Cfg) (s : State) (sid : Nat) (cid : Option Nat) (now : Int)
@@ -211,5 +210,103 @@ theorem C06_path_score (t : Tables) (ctx : Ctx) (f : Freq) : ∀ (p : List Node)
     simp only [List.tail_cons]
     cases edgeScore t ctx a b <;> cases nodeScore t ctx [] b <;> cases pathScore t ctx [] (b :: rest) <;>
       simp [Score.add] <;> omega
+
+/-! ### the first clause: exactly one count, by exactly one -/
+
+/-- **`update_word` is an exact table update**: the count filed under (context, word) rises by one (from 0 if there was none) and
+the count under every other key is what it was. -/
+theorem C06_update_exact (f : List FreqEntry) (ctx : Ctx) (w : Str) (now : Int) (c' : Ctx) (w' : Str) :
+    countOf (updateWord f ctx w now) c' w' = countOf f c' w' + (if c' = ctx ∧ w' = w then 1 else 0) := by
+  rw [updateWord_eq]
+  by_cases hk : c' = ctx ∧ w' = w
+  · obtain ⟨rfl, rfl⟩ := hk
+    simp only [and_self, if_true]
+    cases ha : f.any (isKey c' w') with
+    | true => simp [countOf_map_hit c' w' now f ha]
+    | false =>
+      have hx : isKey c' w' ⟨c', w', 1, now⟩ = true := (isKey_iff _ _ _).2 ⟨rfl, rfl⟩
+      simp [countOf_append, ha, hx, countOf_miss c' w' f ha]
+  · simp only [hk, if_false, Nat.add_zero]
+    cases ha : f.any (isKey ctx w) with
+    | true => simp [countOf_map_other ctx w now c' w' hk f]
+    | false =>
+      have hx : isKey c' w' ⟨ctx, w, 1, now⟩ = false := by
+        cases h2 : isKey c' w' ⟨ctx, w, 1, now⟩ with
+        | false => rfl
+        | true => exact absurd (by have := (isKey_iff _ _ _).1 h2; exact ⟨this.1.symm, this.2.symm⟩) hk
+      simp only [Bool.false_eq_true, if_false, countOf_append, hx]
+      cases hb : f.any (isKey c' w') with
+      | true => simp
+      | false => simp [countOf_miss c' w' f hb]
+
+/-- **What a confirmation does to the learned counts** (`UserPref::update_frequency` = `update_word` then `expire_frequencies`,
+the shape the translator checks): the confirmed word's count in the confirmation's context rises by exactly one; every other count
+that is not due for expiry is unchanged; a count is dropped exactly when all its entries are older than the expiry period. -/
+theorem C06_confirmation_counts (f : List FreqEntry) (ctx : Ctx) (w : Str) (now : Int) (ex : Nat) :
+    countOf (expire (updateWord f ctx w now) now ex) ctx w = countOf f ctx w + 1 ∧
+    (∀ c' w', ¬ (c' = ctx ∧ w' = w) → (∀ e ∈ f, isKey c' w' e = true → fresh now ex e = true) →
+      countOf (expire (updateWord f ctx w now) now ex) c' w' = countOf f c' w') ∧
+    (∀ c' w', ¬ (c' = ctx ∧ w' = w) → (∀ e ∈ f, isKey c' w' e = true → fresh now ex e = false) →
+      countOf (expire (updateWord f ctx w now) now ex) c' w' = 0) := by
+  have other : ∀ c' w', ¬ (c' = ctx ∧ w' = w) → ∀ e ∈ updateWord f ctx w now, isKey c' w' e = true → e ∈ f := by
+    intro c' w' hne e he hk
+    apply (mem_updateWord f ctx w now e he).2
+    cases h2 : isKey ctx w e with
+    | false => rfl
+    | true =>
+      have h1 := (isKey_iff c' w' e).1 hk
+      have h3 := (isKey_iff ctx w e).1 h2
+      exact absurd ⟨h1.1.symm.trans h3.1, h1.2.symm.trans h3.2⟩ hne
+  refine ⟨?_, ?_, ?_⟩
+  · rw [countOf_expire_fresh, C06_update_exact]
+    · simp
+    · intro e he hk
+      have := (mem_updateWord f ctx w now e he).1 hk
+      simp only [fresh, this, Int.sub_self, gt_iff_lt, Bool.not_eq_eq_eq_not, Bool.not_true, decide_eq_false_iff_not, Int.not_lt]
+      exact Int.natCast_nonneg ex
+  · intro c' w' hne hf
+    rw [countOf_expire_fresh, C06_update_exact]
+    · simp [hne]
+    · intro e he hk
+      exact hf e (other c' w' hne e he hk) hk
+  · intro c' w' hne hf
+    apply countOf_expire_stale
+    intro e he hk
+    exact hf e (other c' w' hne e he hk) hk
+
+/-- premises satisfiable, and the numbers: 時 confirmed in `normal` at t = 300 000 000 — its count 2 → 3; 次 (fresh) keeps 5; 個,
+last used at t = 0, more than three days earlier, is dropped; the same word in another context is another key. -/
+example :
+    let f : List FreqEntry := [⟨.normal, [26178], 2, 100000000⟩, ⟨.normal, [27425], 5, 299999999⟩, ⟨.normal, [20491], 7, 0⟩,
+                               ⟨.proper, [26178], 4, 250000000⟩]
+    let f' := expire (updateWord f .normal [26178] 300000000) 300000000 259200000
+    countOf f' .normal [26178] = 3 ∧ countOf f' .normal [27425] = 5 ∧ countOf f' .normal [20491] = 0 ∧
+    countOf f' .proper [26178] = 4 := by decide
+
+/-- The server's `UpdateFrequency` on a known session and candidate with an independent word: the learned table afterwards is
+`update_word` then `expire_frequencies` of the table before, in the context the session was converted under — so
+`C06_confirmation_counts` describes every count after the confirmation. A candidate without independent word changes no count. -/
+theorem C06_confirm_freq (c : Cfg) (s : State) (sid i : Nat) (now : Int) (sess : Session) (cand : Cand)
+    (h : s.sessions.find? (·.sid == sid) = some sess) (hc : sess.cands[i]? = some cand) :
+    (confirm c s sid (some i) now).freq =
+      match independentWord cand.chain with
+      | some w => expire (updateWord s.freq sess.ctx w now) now c.expiryMs
+      | none => s.freq := by
+  simp only [confirm, popSession, h, Option.bind_some, hc]
+  cases independentWord cand.chain <;> cases withAffix cand.chain <;> rfl
+
+theorem C06_confirm_exactly_one (c : Cfg) (s : State) (sid i : Nat) (now : Int) (sess : Session) (cand : Cand) (w : Str)
+    (h : s.sessions.find? (·.sid == sid) = some sess) (hc : sess.cands[i]? = some cand)
+    (hw : independentWord cand.chain = some w) :
+    let f' := (confirm c s sid (some i) now).freq
+    countOf f' sess.ctx w = countOf s.freq sess.ctx w + 1 ∧
+    (∀ c' w', ¬ (c' = sess.ctx ∧ w' = w) → (∀ e ∈ s.freq, isKey c' w' e = true → fresh now c.expiryMs e = true) →
+      countOf f' c' w' = countOf s.freq c' w') ∧
+    (∀ c' w', ¬ (c' = sess.ctx ∧ w' = w) → (∀ e ∈ s.freq, isKey c' w' e = true → fresh now c.expiryMs e = false) →
+      countOf f' c' w' = 0) := by
+  have := C06_confirm_freq c s sid i now sess cand h hc
+  rw [hw] at this
+  simp only [this]
+  exact C06_confirmation_counts s.freq sess.ctx w now c.expiryMs
 
 end Chokan.Props.C06
